@@ -870,7 +870,9 @@ static void inline make_inflate_huff_code_header(struct inflate_huff_code_small 
 static int
 header_matches_pregen(struct inflate_state *state)
 {
-#ifndef ISAL_STATIC_INFLATE_TABLE
+        /* static_inflate.h is generated for the default (32K window) hufftables_default
+         * only; reduced-window builds use a different default table */
+#if !defined(ISAL_STATIC_INFLATE_TABLE) || (IGZIP_HIST_SIZE < ISAL_DEF_HIST_SIZE)
         return 0;
 #else
         uint8_t *in, *hdr;
